@@ -41,6 +41,37 @@ Definition opt_value (j : json) : option (option value) :=
   | _ => match value_of_json 64 j with Some v => Some (Some v) | None => None end
   end.
 
+(* ExprPhi incomings straight from the dump (IR/Decode.v keeps ExprPhi as EOther without operands) *)
+Definition phi_of_expr (j : json) : option (list phi_in) :=
+  match field "Kind" j with
+  | Some k =>
+    match tag k, field_arr "Incoming" k with
+    | Some t, Some ins =>
+      if String.eqb t "ExprPhi" then
+        Some (flat_map (fun i => match field_num "PredKey" i, field_num "CaseIdx" i, field_num "Value" i with
+                                 | Some a, Some b, Some c => [mkphi (Z.to_nat a) (Z.to_nat b) (Z.to_nat c)]
+                                 | _, _, _ => [] end) ins)
+      else None
+    | _, _ => None
+    end
+  | None => None
+  end.
+
+Fixpoint phi_table_from (i : nat) (es : list json) : phi_table :=
+  match es with
+  | [] => []
+  | e :: es' => match phi_of_expr e with Some ins => (i, ins) :: phi_table_from (S i) es' | None => phi_table_from (S i) es' end
+  end.
+
+Definition phi_table_of_func (fj : json) : phi_table :=
+  match field_arr "Expressions" fj with Some es => phi_table_from 0 es | None => [] end.
+
+Definition phi_tables (irj : json) : list phi_table :=
+  (match field_arr "Functions" irj with Some fs => map phi_table_of_func fs | None => [] end)
+  ++ (match field_arr "EntryPoints" irj with
+      | Some eps => map (fun e => match field "Function" e with Some fj => phi_table_of_func fj | None => [] end) eps
+      | None => [] end).
+
 Definition rerr (kind msg : string) : json := JObj [("ok", JBool false); ("kind", JStr kind); ("msg", JStr msg)].
 
 (* {"pass":"run", "ir":dump, "ep":i, "globals":[..], "args":[..], "fuel":n, "lenient":bool}: as tool irrun,
@@ -51,7 +82,7 @@ Definition run_entry_json (j irj : json) : json :=
     match dec_module irj with
     | Err msg => rerr "decode" msg
     | Ok m0 =>
-      let m := match field_bool "lenient" j with Some true => lenient m0 | _ => m0 end in
+      let m := match field_bool "lenient" j with Some true => lenient (phi_tables irj) m0 | _ => m0 end in
       match map_opt opt_value gs, map_opt (value_of_json 64) args with
       | Some gvals, Some avals =>
         match run_entry (Z.to_nat fuel) m (Z.to_nat ep) gvals avals with
